@@ -376,6 +376,17 @@ func checkResetSpec(r *core.Run, p *core.Program, rule string, spec resetSpec) {
 					found = w.f.Decl.Name.Name
 				}
 			}
+			if found == "" {
+				// the store may sit in a helper that the sub-reset calls unconditionally
+				for _, mf := range funcsOf(p.Pkgs[spec.rel]) {
+					if recvNamed(mf.Obj) == nil || recvNamed(mf.Obj).Obj() != nt.Obj() || !matchName(mf.Decl.Name.Name, subs) {
+						continue
+					}
+					if _, ok := definiteStores(p, nt, writes, mf.Decl.Name.Name, 0, map[string]bool{})[fld]; ok {
+						found = mf.Decl.Name.Name
+					}
+				}
+			}
 			r.Check(rule, key, fld.Pos(), found != "", fmt.Sprintf("field %s is expected to be re-initialised by %v before its first use in a document, but none of them stores it unconditionally any more", fld.Name(), subs))
 			continue
 		}
